@@ -20,6 +20,7 @@ claimed = {
  "C02": "Theorems C02_update_appends, C02_identity_kept and C02_timestamp (BCD time stamp decodes to the instant and offset for every zone offset) on the model; records of the model compared with ChfUe.Records after every operation (content, order, BER size); exactly-once / identity / cause monitor over every observed history incl. two-session and record-splitting histories; TimeStampToCdr compared on all 1681 minute offsets",
  "C03": "Theorem C03_dump_wf: the file dumpCdrFile writes is a well-formed TS 32.297 file whenever every record encoding fits 16 bits (via the C14/C15 theorems); record sizes of the model (BER encoder model on the regenerated schema) compared with the real encodings; the independent reader + generic TLV walker are run in Coq on the bytes of /tmp/<supi>.cdr; known finding C03/record-exceeds-65535 proved as C03_oversize_refuted",
  "C10": "Theorems C10_reference_determines_counter (any SUPI and consumer text) and C10_unique (NoDup of the references handed out in any history) on the model; references, session map and record counter compared with the CHF on adversarial-name histories; uniqueness/designation monitor on the observed state. Concurrent creates are C09's subject",
+ "C18": "Theorems C18_bounded (in every history of exchanges, any interleaving, the established Diameter connections never outnumber the exchanges in flight, and at quiescence no connection and no task serving one is left) and C18_sites_closed on the table of Dial call sites regenerated from /repo/internal each run (go/ast: closed on every path after the dial); C18_unclosed_site_leaks shows n requests leave n connections otherwise. Partial: established connections to the rating / account-balance ports (/proc/self/net/tcp) and goroutine counts measured after every operation of N = 10, 100 (1000 thorough) online-charging updates against the model's count and a fixed bound; runtime goroutine numbers are bounded, not predicted",
  "C20": "Theorems C20_sound (for arbitrary verdicts of the leaf validators, a configuration accepted by Config.Validate passes every configuration read of the start-up path and of the first charging request without a nil pointer and registers no route twice), C20_rejects_missing_section / _scheme / _service / _duplicate_service, C20_tables_supported, over the struct-tag tables regenerated from pkg/factory each run; model of ValidateStruct + the validate methods and of the start-up reads compared with one child process per configuration (factory.ReadConfig, service.NewApp, Start against a stub NRF) over the presence lattice of sections and leaf variants; crash / must-reject monitor on the observed outcomes",
  "C17": "Theorems C17_roundtrip (every in-range value of the four message structs is marshalled without error, the octets parse back to the same AVPs when each fits the 24-bit AVP length, and the receiver's Unmarshal rebuilds the value sent; proved for any tables passing the check: C17_roundtrip_any_tables) and C17_tables (every avp tag names a defined AVP of exactly the Go field's type resolvable by code, siblings have distinct codes, no two names share a (code, vendor), no name has two definitions, both commands defined) on the dictionary/tag tables regenerated from /repo each run; model octets and received values compared with go-diameter's real Marshal/WriteTo/ReadMessage/Unmarshal on boundary-heavy random messages; sent = received monitor on the implementation's output",
  "C13": "Theorems C13_all_protected (every route registered by the router model, for any service list, lies inside a group carrying the authorization check; a token the verifier refuses is answered 401 and reaches no handler) and C13_routes_agree_and_probes_401 on the table regenerated each run from the real gin engine: for all 16 service lists Engine.Routes() equals the model's routes and every route x 7 bad-token kinds was answered 401 (exhaustive)",
